@@ -196,6 +196,9 @@ class Lib:
     def fresh_arr(self, base, shape, dtype):
         """array of unconstrained contents"""
         ctx = self.ctx
+        if len(shape) == 0:
+            v = ctx.fresh(base, elem_sort(dtype))
+            return Arr((), lambda ix, v=v: v, dtype, label=str(v))
         if len(shape) == 1:
             A = ctx.fresh(base, z3.ArraySort(z3.IntSort(), elem_sort(dtype)))
             a = Arr(shape, lambda ix, A=A: A[to_z3(ix[0])], dtype, label=str(A))
@@ -813,6 +816,9 @@ class Lib:
     def obj_setattr(self, base, name, v):
         if isinstance(base, Opaque) and hasattr(base, 'setattr'):
             return base.setattr(self.I, name, v)
+        if isinstance(base, Opaque) and base.name == 'catalog':
+            base.__dict__.setdefault('attrs', {})[name] = v     # abstract catalog: attribute binding is recorded only
+            return None
         raise Unsupported('setattr on %r' % type(base))
 
     def obj_binop(self, op, a, b):
@@ -1140,7 +1146,7 @@ def _isinstance(L, v, t):
         if d == 'builtins.bool':
             return isinstance(v, bool) or is_bool_sym(v)
         if d == 'builtins.list':
-            return isinstance(v, list)
+            return isinstance(v, (list, SymList))
         if d == 'builtins.tuple':
             return isinstance(v, tuple)
         if d == 'builtins.dict':
@@ -1220,6 +1226,8 @@ def _set(L, it=()):
 
 @model('builtins.enumerate')
 def _enumerate(L, it, start=0):
+    if isinstance(it, Obj):
+        return Opaque('enumerate', inner=it, start=start)
     if isinstance(it, Opaque) or (isinstance(it, Arr) and not isinstance(simp(it.shape[0]), int)):
         return Opaque('enumerate', inner=it, start=start)
     return [(i + start, x) for i, x in enumerate(L.I.iterate(it))]
